@@ -25,11 +25,12 @@ CONSTANTS DepthLimit, PreBody, LogEvents
 \* msgs  : Seq([kind, sortid])       recorded errors / warnings
 \* hooks : Seq([hook, name, args, t]) calls of template_fn / post_template_fn
 \* ev    : Seq(STRING)               push / pop events ("+" \o label / "-")
+\* steps : Nat                       number of pushes so far (work done)
 Lbl(n) == [t |-> "lbl", n |-> n]
 TmplLbl(n) == [t |-> "tmpl", n |-> n]
 ArgvalLbl == [t |-> "argval", n |-> ""]
 
-Push(st, l) == [st EXCEPT !.stack = Append(@, l),
+Push(st, l) == [st EXCEPT !.stack = Append(@, l), !.steps = @ + 1,
                           !.ev = IF LogEvents THEN Append(@, "+" \o l.t \o ":" \o l.n) ELSE @]
 Pop(st) == [st EXCEPT !.stack = SubSeq(@, 1, Len(@) - 1),
                       !.ev = IF LogEvents THEN Append(@, "-") ELSE @]
@@ -37,9 +38,28 @@ Msg(st, kind, sortid) == [st EXCEPT !.msgs = Append(@, [kind |-> kind, sortid |-
 Hook(st, rec) == [st EXCEPT !.hooks = Append(@, rec)]
 
 R(out, st) == [out |-> out, st |-> st]
+RECURSIVE PopTo(_, _)
+PopTo(st, n) == IF Len(st.stack) > n THEN PopTo(Pop(st), n) ELSE st
 
-(* ---------------- detect_expand_template_loop (core.py:2058-2072) ------ *)
-DetectLoop(s) ==
+(* ---------------- detect_expand_template_loop (core.py) ----------------- *)
+\* repaired design: the template on top is a loop iff it is already being expanded in
+\* an enclosing template BODY; a template whose argument is being expanded (an
+\* "argval"/ARGNAME entry directly above it) does not enclose what follows
+RECURSIVE BodyAncestor(_, _, _, _)
+BodyAncestor(s, i, top, inArg) ==   \* scans s[i], s[i-1], ... , s[1]
+  IF i < 1 THEN FALSE
+  ELSE IF s[i].t = "argval" \/ (s[i].t = "lbl" /\ s[i].n = "ARGNAME") THEN BodyAncestor(s, i - 1, top, TRUE)
+  ELSE IF s[i].t = "tmpl"
+       THEN IF inArg THEN BodyAncestor(s, i - 1, top, FALSE)
+            ELSE IF s[i] = top THEN TRUE ELSE BodyAncestor(s, i - 1, top, FALSE)
+  ELSE BodyAncestor(s, i - 1, top, inArg)
+DetectLoopBody(s) ==
+  LET n == Len(s) IN
+  IF n < 2 \/ ~(\E j \in 1..(n - 1) : s[j] = s[n]) THEN FALSE ELSE BodyAncestor(s, n - 1, s[n], FALSE)
+
+\* the earlier design (deviation "RepeatedPatternLoopDetection"): the tail of the path
+\* is one pattern repeated at least twice, patterns starting with ARGVAL- ignored
+DetectLoopPattern(s) ==
   LET n == Len(s) IN
   IF n < 2 \/ ~(\E j \in 1..(n - 1) : s[j] = s[n]) THEN FALSE
   ELSE \E p \in 1..(n \div 2) : \E i \in 0..(n - p - 1) :
@@ -176,7 +196,7 @@ ExpItem(it, f, ea, st, X) ==
               IN R(<<"{{", it.name>> \o ra.out \o <<"}}">>, ra.st)
          ELSE
          LET s2 == Push(s1, TmplLbl(it.name)) IN
-         IF DetectLoop(s2.stack)
+         IF (IF "RepeatedPatternLoopDetection" \in X.Dev THEN DetectLoopPattern(s2.stack) ELSE DetectLoopBody(s2.stack))
          THEN R(ErrLoop(it.name), Msg(Pop(s2), "warning", "core/1422"))
          ELSE
          LET ba == BindArgs(it.args, 1, 1, f, s2, X, <<>>)
@@ -253,10 +273,15 @@ ExpItem(it, f, ea, st, X) ==
                          \* Lua:<mod>:<fn>() pushed, anything left is popped in `finally`
                          LET base == Len(s3.stack)
                              s4 == Push(s3, Lbl("Lua:" \o it.fn))
-                             Restore(s) == [s EXCEPT !.stack = SubSeq(@, 1, base)]
-                             first == IF Len(it.args) > 0 THEN Exp(it.args[1].val, f, TRUE, s4, X) ELSE R(<<>>, s4)
+                             Restore(s) == PopTo(s, base)
+                             \* frame.args[1] is expanded on access, through frame:preprocess()
+                             first == IF Len(it.args) > 0
+                                      THEN LET e == Exp(it.args[1].val, f, TRUE, Push(s4, Lbl("frame:preprocess()")),
+                                                         [X EXCEPT !.o.pre = FALSE, !.o.tfn = "none", !.o.pfn = "none", !.o.pfns = TRUE, !.o.invoke = TRUE])
+                                           IN R(e.out, Pop(e.st))
+                                      ELSE R(<<>>, s4)
                              res ==
-                               CASE it.fn = "echo" -> R(<<"L">> \o DropOneNL(first.out), first.st)
+                               CASE it.fn = "echo" -> R(<<"L">> \o first.out, first.st)
                                  [] it.fn = "err" -> R(ErrLua(it.fn), Msg(s4, "error", "luaexec/683"))
                                  [] it.fn = "loop" -> R(ErrTimeout(it.fn), Msg(s4, "error", "luaexec/683"))
                                  [] it.fn = "pre" ->
@@ -272,6 +297,6 @@ ExpItem(it, f, ea, st, X) ==
                          IN R(AddNL(res.out), Pop(Pop(Restore(res.st))))
 
 (* ---------------- one expand() call ---------------- *)
-InitSt(stack) == [stack |-> stack, msgs |-> <<>>, hooks |-> <<>>, ev |-> <<>>]
+InitSt(stack) == [stack |-> stack, msgs |-> <<>>, hooks |-> <<>>, ev |-> <<>>, steps |-> 0]
 ExpandCall(page, stack, X) == Exp(page, TopFrame, ~X.o.pre, InitSt(stack), X)
 =============================================================================
